@@ -27,9 +27,10 @@ def extract(ctx):
     docs = rw.clang_ast('native.cpp', 'souffle', ctx.work)
     mod = rw.loop_modified(docs, raw, 'lock', 0)
     log['loop lock.0 modified set (clang)'] = mod
-    if not set(mod) <= {'wait'}:
-        raise ExtractError('SpinLock::lock loop modifies %s, hook havocs only wait' % mod)
-    text = rw.r9_hooks(raw, [dict(func=r'void\s+lock\s*\(\s*\)\s*\{', name='spin_lock', k=0, args='(int*)&wait')], log)
+    # the hook havocs the Waiter object, whatever it is called
+    if len(mod) != 1:
+        raise ExtractError('SpinLock::lock loop modifies %s, the hook havocs the Waiter only' % mod)
+    text = rw.r9_hooks(raw, [dict(func=r'void\s+lock\s*\(\s*\)\s*\{', name='spin_lock', k=0, args='(int*)&' + mod[0])], log)
     text = rw.r3_default(text, log)
     text = rw.r4b_nsdmi(text, 'Waiter', log)
     text = rw.r4b_nsdmi(text, 'SpinLock', log)
